@@ -47,7 +47,9 @@ CHECKS = {
                      "64 KiB, every prefix of valid messages, bit flips, every length field x 9 boundary values, every "
                      "AVP type x payload length 0..20 x invalid content in four embeddings, nesting to 16. A value "
                      "getter that returns a value for a payload the reference codec calls malformed for the type "
-                     "(wrong width, bad UTF-8, short address) is a witness as well.",
+                     "(wrong width, bad UTF-8, short address) is a witness as well, and a decode that uses up a step "
+                     "budget far above the linear bound is cut off from inside the monitored primitives and reported "
+                     "as non-terminating.",
                 ref="4 C04", note=BASE_NOTE + "; linear time is judged on a logical step count, not wall-clock; "
                 "diameter.message.dump() is observed but not judged."),
     "C20": dict(cat="exploration", tech="runtime contract on the real Message.to_answer over every command class x "
@@ -70,7 +72,9 @@ CHECKS = {
                      "streams, prefix exactness + progress (resync / wait / close) for wrong lengths. One layer "
                      "further out a node's own recv() sizes are driven (bursts on and around the chunk size), and a "
                      "bad frame directly behind requests whose answers are still pending must leave the connection "
-                     "closed or serving.",
+                     "closed or serving; frames of correct length with odd bodies (AVP lengths below the header "
+                     "size, zero-filled) may be delivered, skipped or close the connection, but a reader that stays "
+                     "inside one decode call for 1.5 s is a spin.",
                 ref="4 C05", note=NODE_NOTE + "; only the queue shim is engaged here (no node), poll time-outs "
                 "scaled 5 s -> 4 ms."),
     "C06": dict(cat="exploration", tech="lockstep node harness (virtual transport + clock) with a reference model of "
@@ -136,7 +140,8 @@ CHECKS = {
                      "failure, CEA rejected, CEA timeout, peer gone, socket error, DPR, inbound connection of the same "
                      "peer that closes, pending inbound lost, write error, DPR with a late DWA, repeated DPR} (15 "
                      "outcomes) x 7 flag sets incl. a busy neighbour connection (persistent, always_reconnect, reconnect_wait, addresses), random "
-                     "longer sequences with reconnect_wait 1..60; the clock is stepped 1 s at a time and every tick is "
+                     "longer sequences with reconnect_wait 1..60 (one flag set has the peer spell its identity with "
+                     "capitals); the clock is stepped 1 s at a time and every tick is "
                      "judged: dial required / forbidden, number of live self-initiated sockets.",
                 ref="4 C12", note=NODE_NOTE + "; a socket whose connect() was refused synchronously is not a "
                 "connection."),
@@ -157,7 +162,7 @@ CHECKS = {
                      "answered-now/deferred plus deferred submissions and DWRs for window sizes 1 and 2, random "
                      "sequences to length 12 for window sizes 1..4 on one or two connections, so eviction from the "
                      "window, repeats of pending requests, cross-origin identifiers, reconnects and the end-to-end "
-                     "identifier 0 are exercised.",
+                     "identifier 0 and requests the node answers itself (3003 / 3007) are exercised.",
                 ref="4 C17", note=NODE_NOTE + "; the window counts every answer the node transmits to the origin."),
     "C14": dict(cat="fault_enumeration", tech="fault injection at enumerated byte offsets and protocol steps on the "
                 "lockstep node harness; monitors: threading.excepthook, liveness of long-lived threads, absolute "
@@ -175,8 +180,10 @@ CHECKS = {
     "C18": dict(cat="fault_enumeration", tech="lockstep node harness; Node.stop() runs in a harness thread on the "
                 "virtual clock while peers react by script; event-log model + census of sockets and threads after "
                 "return; half of the cases repeated under directed schedule perturbation",
-                text="0..3 connections in each of 8 states at stop time x 7 peer reactions to the DPR (prompt, late, "
-                     "never, close, DPA then close, handshake completing during the stop, DPA with output pending) x "
+                text="0..3 connections in each of 9 states at stop time (incl. a burst of requests under way to a busy "
+                     "one-thread application) x 8 peer reactions to the DPR (prompt, late, never, close, DPA then "
+                     "close, handshake completing during the stop, DPA with output pending, DPA with an error result) x "
+                     "wait timeouts from 0 x "
                      "1..3 listening addresses (optionally both transports) x newcomer during shutdown x persistent-peer reconnect deadline "
                      "inside the window x force x wait timeouts; enumerated for 0..2 connections, sampled for 3. Judged: "
                      "DPR(REBOOTING) to exactly the ready peers, none when forced, close soon after DPA or at the "
@@ -205,7 +212,9 @@ CHECKS = {
                      "SequenceGenerator / SessionGenerator, start values mid, MAX-2, MAX-1, MAX (the evidence says per "
                      "configuration whether the space was exhausted); 10^5 successive draws, wrap to 1, all 4096 "
                      "start-time patterns of the end-to-end generator, Node initialisation on the virtual clock and "
-                     "the session-id format for 2000 counters. Node level: with the random start values of a "
+                     "the session-id format for 2000 counters. The callers: two application threads in send_request / "
+                     "route_request plus a thread sending a watchdog request on one connection under the same "
+                     "scheduler, identifiers read off the wire. Node level: with the random start values of a "
                      "connection's hop-by-hop generator and the node's end-to-end generator scripted next to each "
                      "other (-6..+6), every identifier the node puts on the wire (application requests, watchdog "
                      "requests) is compared.",
@@ -222,7 +231,9 @@ CHECKS = {
                      "says per scenario whether the space was exhausted. The oracle: bytes accepted by send() == "
                      "concatenation of the queued messages in the order of their add_out_msg steps. Stress: 18 "
                      "messages from 3 threads per run (burst, paced by sleeping, paced by yielding), random write "
-                     "plans, seeded yields; frames carry unique ids.",
+                     "plans, seeded yields, on two connections of one node at once (the second one starting with soft "
+                     "errors every other run); frames carry unique ids; bytes that arrive late are waited for "
+                     "(130 s) before a stall is called.",
                 ref="4 C15", note=NODE_NOTE + "; line-boundary preemption assumed possible; select() and an empty "
                 "queue are 'blocked until ready' for the scheduler."),
 }
